@@ -254,7 +254,7 @@ func (d *coreDriver) oneTrace(id int) error {
 
 	real := func(t int64) wt.Timestamp { return wt.Timestamp(m.B + t) }
 	val := func() []int64 {
-		if (d.prop == "C01" || d.prop == "C05" || d.prop == "ALL") && rnd.Intn(15) == 0 {
+		if (d.prop == "C01" || d.prop == "C02" || d.prop == "C05" || d.prop == "ALL") && rnd.Intn(15) == 0 {
 			return []int64{} // a NaN value: stored as (interval, NaN), which is not an empty slot
 		}
 		x := (rnd.Int63n(41) - 20) * unit
